@@ -29,6 +29,12 @@ def rng(*parts):
     return random.Random(sub_seed(*parts))
 
 
+def rng_for(seed, *parts):
+    """PRNG for an explicit seed (replays and corpus entries carry the seed they were found with)"""
+    h = hashlib.sha256(repr((seed,) + parts).encode()).digest()
+    return random.Random(int.from_bytes(h[:8], 'big'))
+
+
 # ---------------------------------------------------------------- Lean side
 _built = {}
 
